@@ -1,4 +1,4 @@
-import Mp4ff.Model.Crop
+import Mp4ff.Model.CropHdr
 import Mp4ff.Driver.C09
 namespace Mp4ff.Driver.C10
 open Mp4ff Mp4ff.Stbl Mp4ff.Crop Mp4ff.Driver
@@ -41,6 +41,19 @@ def dispatch (op : String) (args : List String) : Option String :=
         | some (outs, pieces) =>
           " T ".intercalate (outs.map showTrack) ++ " R " ++
             (if pieces.isEmpty then "-" else ",".intercalate (pieces.map fun c => s!"{c.off}:{c.size}")))
+  -- crophdr <ms> <mvhd timescale> <mvhd duration> <n> {tkhdDur elst}*n {track}*n : the header durations after the crop
+  | "crophdr", ms :: mts :: mdur :: n :: rest => do
+      let n ← n.toNat?
+      let hdrArgs := rest.take (2 * n)
+      let rec hdrs : List String → Option (List TrackHdr)
+        | [] => some []
+        | d :: e :: more => do some (⟨← d.toNat?, ← (if e == "-" then some [] else (e.splitOn ",").mapM (·.toNat?))⟩ :: (← hdrs more))
+        | _ => none
+      let tracks ← parseTracks (rest.drop (2 * n))
+      let h : MovieHdr := ⟨← mts.toNat?, ← mdur.toNat?, ← hdrs hdrArgs⟩
+      pure (match cropHeadersOf tracks (← ms.toNat?) h with
+        | none => "fail"
+        | some h' => s!"mvhd={h'.mvhdDur}" ++ String.join (h'.tracks.map fun t => s!" T {t.tkhdDur} {showNats t.elst}"))
   | _, _ => none
 
 end Mp4ff.Driver.C10
